@@ -101,7 +101,7 @@ def run(ctx):
     adv = [job(D, g, x0, "det", "adv", c, seeds[0], base=b) for D in Ds for g in ("lin", "log", "tight", "log2") for x0 in ("in", "ub")
            for c in (None, "half") for b in ("F", "S4")]
     st = explore(adv, ["ans"], 1 if q else 2, sink, stats=st, name="adv/b", pos_ok=(lambda k, p, r: p < 14) if q else None,
-                 cap=None if q else st["executions"] + 20000)
+                 cap=None if q else st["executions"] + 10000)
     # (c) noisy, noise deviations
     nz = [job(D, g, "ub", m, "sphere_out", None, seeds[0]) for D in Ds[:2] for g in ("lin", "log") for m in ("decl",)]
     st = explore(nz, ["noise"], 1, sink, stats=st, name="noisy/b1", pos_ok=lambda k, p, r: p % (6 if q else 2) == 0)
